@@ -218,18 +218,35 @@ fn cmd_replay(path: &str) -> i32 {
 }
 
 fn cmd_determinism(n: u64) -> i32 {
-    // run every batch's first n indices; print one line per run: batch idx hash
+    // run every batch's first n indices on the worker pool; print one line per run, sorted:
+    // two invocations (any worker count, any process) must print identical text
     let seed = verif_seed();
+    let lines = Mutex::new(Vec::<String>::new());
     for def in props::all() {
         for b in (def.batches)("quick") {
-            for idx in 0..n {
-                let cfg = check::make_cfg(seed, &b, idx);
-                match check::exec_in_thread(b.exec, &b.profile, &cfg) {
-                    Ok((out, mon)) => println!("{} {} {} v={}", b.name, idx, hist::history_hash(&out.hist), mon.violations.len()),
-                    Err(e) => println!("{} {} ERROR {e}", b.name, idx),
+            let next = std::sync::atomic::AtomicU64::new(0);
+            std::thread::scope(|s| {
+                for _ in 0..workers() {
+                    s.spawn(|| loop {
+                        let idx = next.fetch_add(1, std::sync::atomic::Ordering::SeqCst);
+                        if idx >= n.min(b.runs) {
+                            break;
+                        }
+                        let cfg = check::make_cfg(seed, &b, idx);
+                        let line = match check::exec_in_thread(b.exec, &b.profile, &cfg) {
+                            Ok((out, mon)) => format!("{} {:06} {} v={} d={}", b.name, idx, hist::history_hash(&out.hist), mon.violations.len(), out.decisions.len()),
+                            Err(e) => format!("{} {:06} ERROR {e}", b.name, idx),
+                        };
+                        lines.lock().unwrap().push(line);
+                    });
                 }
-            }
+            });
         }
+    }
+    let mut l = lines.into_inner().unwrap();
+    l.sort();
+    for x in l {
+        println!("{x}");
     }
     0
 }
